@@ -1,0 +1,22 @@
+// Copyright (c) Tailscale Inc & AUTHORS
+// SPDX-License-Identifier: BSD-3-Clause
+
+//go:build verif
+
+package server
+
+import (
+	"context"
+
+	"github.com/aws/aws-sdk-go-v2/service/s3"
+	"github.com/tailscale/setec/db"
+)
+
+// VerifPeriodicBackup runs the periodic backup loop for kdb with an injected
+// S3 client and bucket, until the loop returns. It exists only for
+// verification harnesses (build tag verif), so that the loop can be driven
+// without ambient AWS configuration.
+func VerifPeriodicBackup(ctx context.Context, kdb *db.DB, client *s3.Client, bucket string) {
+	s := &Server{db: kdb, backupClient: client, backupBucket: bucket}
+	s.periodicBackup(ctx)
+}
